@@ -91,6 +91,9 @@ class Recorder:
         s = loc.get('s')
         store = loc.get('local_store', None)
         if store is None:
+            cur = loc.get('current', None)          # per-thread current store (repaired ts_props)
+            store = getattr(cur, 'store', None) if cur is not None else None
+        if store is None:
             store = getattr(s, '_ts_props', None)
         e = {'t': t, 'ev': kind, 'cls': self.acc.cls_of(s), 'inst': self.ids(s), 'obj': s, 'hit_obj': store,
              'prop': loc.get('k')}
@@ -204,11 +207,13 @@ class Baton:
 KINDS = ['plain', 'body', 'raise', 'nf', 'crash', 'json404', 'form', 'hdrs']
 
 
-def make_app(config=None):
+def make_app(config=None, app=None):
     """An application with one handler per request kind. Handlers report everything they read from
-    `request` inside the response body, so comparing responses compares both directions."""
+    `request` inside the response body, so comparing responses compares both directions.
+    With `app` given (the module-level default application) the handlers are installed on it."""
     from ombott import Ombott, HTTPResponse
-    app = Ombott(config)
+    if app is None:
+        app = Ombott(config)
     rq, rs = app.request, app.response
 
     def seen():
